@@ -5,6 +5,7 @@ import (
 	"encoding/hex"
 	"fmt"
 	"sort"
+	"strings"
 	"time"
 
 	abci "github.com/cometbft/cometbft/abci/types"
@@ -300,6 +301,14 @@ var builders = map[string]builder{
 		}
 		return &auctionsV2types.MsgPlaceMarketBidRequest{AuctionId: id, Bidder: s.String(), Amount: coin("ucmst", 10*unit)}
 	},
+	"liquidity.LimitOrder": func(f *Fix, e *sim.Env, s, h sdk.AccAddress, prod string, ax Ax) sdk.Msg {
+		offer := coin("ucmdx", 3*unit)
+		offer = offer.AddAmount(sdk.NewDecFromInt(offer.Amount).Mul(d("0.003")).RoundInt())
+		return liquiditytypes.NewMsgLimitOrder(f.AppCswap, s, f.LPair, liquiditytypes.OrderDirectionSell, offer, "ucmst", d("2.17"), i(3*unit), 12*time.Hour)
+	},
+	"liquidity.MMOrder": func(f *Fix, e *sim.Env, s, h sdk.AccAddress, prod string, ax Ax) sdk.Msg {
+		return liquiditytypes.NewMsgMMOrder(f.AppCswap, s, f.LPair, d("2.19"), d("2.16"), i(4*unit), d("1.85"), d("1.82"), i(4*unit), 12*time.Hour)
+	},
 	// ---- liquidity
 	"liquidity.CancelOrder": func(f *Fix, e *sim.Env, s, h sdk.AccAddress, prod string, ax Ax) sdk.Msg {
 		app, pair := f.scopeOf(ax)
@@ -393,6 +402,8 @@ func (f *Fix) appID(name string) uint64 {
 		return f.AppHarbor
 	case "commodo":
 		return f.AppCommodo
+	case "twin":
+		return f.AppTwin
 	}
 	return f.AppCswap
 }
@@ -406,6 +417,9 @@ func (f *Fix) ApplyControls(e *sim.Env, app uint64, breaker bool, esm string) er
 		gov := "uharbor"
 		if app == f.AppCommodo {
 			gov = "ugovc"
+		}
+		if app == f.AppTwin {
+			gov = "ugovt"
 		}
 		if r := e.Deliver(esmtypes.NewMsgDeposit(f.LP.String(), app, coin(gov, 1000*unit))); !r.OK {
 			return fmt.Errorf("esm deposit: %s", r.Err)
@@ -443,6 +457,57 @@ func (f *Fix) ApplyControls(e *sim.Env, app uint64, breaker bool, esm string) er
 	return nil
 }
 
+// MakeHole removes an OLDER position of the kind the opening message creates, by its owner (the owner's positions are the
+// oldest of the fixture), so that the id sequence of that kind has a hole below live positions. Reports whether it did.
+func (f *Fix) MakeHole(e *sim.Env, msg string) bool {
+	none := Ax{"small", "home"}
+	var ms []sdk.Msg
+	switch msg {
+	case "vault.MsgCreate":
+		ms = append(ms, builders["vault.MsgClose"](f, e, f.Owner, f.Owner, "oracle", none))
+	case "locker.MsgCreateLocker":
+		ms = append(ms, builders["locker.MsgCloseLocker"](f, e, f.Owner, f.Owner, "na", none))
+	case "lend.Lend":
+		ms = append(ms, builders["lend.CloseLend"](f, e, f.Owner, f.Owner, "na", none))
+	case "lend.BorrowAlternate":
+		ms = append(ms, builders["lend.CloseBorrow"](f, e, f.Owner, f.Owner, "na", none), builders["lend.CloseLend"](f, e, f.Owner, f.Owner, "na", none))
+	case "liquidity.LimitOrder", "liquidity.MMOrder":
+		ms = append(ms, builders["liquidity.CancelOrder"](f, e, f.Owner, f.Owner, "na", none), builders["liquidity.CancelMMOrder"](f, e, f.Owner, f.Owner, "na", none))
+	case "auctionsV2.MsgDepositLimitBid":
+		ms = append(ms, builders["auctionsV2.MsgCancelLimitBid"](f, e, f.Owner, f.Owner, "na", none))
+	}
+	ok := false
+	for _, m := range ms {
+		if e.Deliver(m).OK {
+			ok = true
+		}
+	}
+	return ok
+}
+
+// HoldersView = combined view of every holder's positions and balances.
+func (f *Fix) HoldersView(e *sim.Env) string {
+	return hashStrings([]string{f.VictimView(e, f.Owner), f.VictimView(e, f.Other), f.VictimView(e, f.Risk), f.VictimView(e, f.RiskTwin)})
+}
+
+// MakeHoley builds the "holey" prepared state: for every kind an older position is removed by its owner and a third
+// party opens a new one afterwards; one block passes.
+func (f *Fix) MakeHoley(e *sim.Env) []string {
+	ops := []string{}
+	for _, msg := range []string{"vault.MsgCreate", "locker.MsgCreateLocker", "lend.Lend", "liquidity.LimitOrder", "liquidity.MMOrder", "auctionsV2.MsgDepositLimitBid"} {
+		if f.MakeHole(e, msg) {
+			ops = append(ops, "hole:"+msg)
+		}
+		if e.Deliver(builders[msg](f, e, f.Newbie, f.Newbie, "oracle", Ax{"small", "home"})).OK {
+			ops = append(ops, "open:"+msg)
+		}
+	}
+	if br := e.NextBlock(6 * time.Second); br.Panic {
+		panic("holey block panicked: " + br.Err)
+	}
+	return ops
+}
+
 // SetAdminState puts the esm admin parameter into the given state by executing a parameter-change proposal.
 func (f *Fix) SetAdminState(e *sim.Env, adm string) error {
 	var val string
@@ -475,9 +540,8 @@ func hashStrings(xs []string) string {
 func (f *Fix) VictimView(e *sim.Env, u sdk.AccAddress) string {
 	var xs []string
 	a := e.App
-	for _, ep := range []uint64{f.EpCmdx, f.EpAtom} {
-		if id := f.vaultID(e, u, ep); id != 0 {
-			v, _ := a.VaultKeeper.GetVault(e.Ctx, id)
+	for _, v := range a.VaultKeeper.GetVaults(e.Ctx) { // every vault record of any app whose owner is u
+		if v.Owner == u.String() {
 			xs = append(xs, "vault:"+v.String())
 		}
 	}
@@ -543,14 +607,25 @@ func NewIn(pre, post map[string]bool) int64 {
 func (f *Fix) HookViewOf(e *sim.Env, app uint64) HookView {
 	a := e.App
 	v := HookView{SeizedID: map[string]bool{}, AucID: map[string]bool{}}
+	// a seized vault belongs to the app of its vault product, whatever app the sweep filed the locked vault under
+	ofApp := func(tag, extPair uint64, vaultKind bool) bool {
+		if tag == app {
+			return true
+		}
+		if !vaultKind {
+			return false
+		}
+		ep, found := a.AssetKeeper.GetPairsVault(e.Ctx, extPair)
+		return found && ep.AppId == app
+	}
 	for _, lv := range a.NewliqKeeper.GetLockedVaults(e.Ctx) {
-		if lv.AppId == app {
+		if ofApp(lv.AppId, lv.ExtendedPairId, lv.InitiatorType == "vault") {
 			v.Seized++
 			v.SeizedID[fmt.Sprintf("l2:%d", lv.LockedVaultId)] = true
 		}
 	}
 	for _, lv := range a.LiquidationKeeper.GetLockedVaults(e.Ctx) {
-		if lv.AppId == app {
+		if ofApp(lv.AppId, lv.ExtendedPairId, lv.GetBorrowMetaData() == nil) {
 			v.Seized++
 			v.SeizedID[fmt.Sprintf("l1:%d", lv.LockedVaultId)] = true
 		}
@@ -598,6 +673,14 @@ func (f *Fix) HookViewOf(e *sim.Env, app uint64) HookView {
 // ---------------------------------------------------------------------------------------------------
 // hooks
 
+// plainHook: the twin variants run the very same hook; only the controlled / judged app differs.
+func plainHook(hook string) string {
+	if hook == "app.block@twin" {
+		return "app.blockHarbor"
+	}
+	return strings.TrimSuffix(hook, "@twin")
+}
+
 func noPanic(fn func()) (panicked bool, msg string) {
 	defer func() {
 		if r := recover(); r != nil {
@@ -611,6 +694,7 @@ func noPanic(fn func()) (panicked bool, msg string) {
 // armHook prepares the trigger of a hook on the branch e (before the controls are applied).
 func (f *Fix) armHook(e *sim.Env, hook string) {
 	a := e.App
+	hook = plainHook(hook)
 	switch hook {
 	case "liqV2.sweepVault", "liqV2.sweepBorrow", "liqV1.sweepVault", "liqV1.sweepBorrow", "liqV2.msgInternalVault", "liqV2.msgInternalBorrow",
 		"liqV1.msgVault", "liqV1.msgBorrow", "app.blockCommodo":
@@ -641,6 +725,7 @@ func fundModule(e *sim.Env, module string, c sdk.Coin) {
 // runHook executes the hook (or liquidation message) on e.
 func (f *Fix) runHook(e *sim.Env, hook string) (res sim.Result) {
 	a := e.App
+	hook = plainHook(hook)
 	res.OK = true
 	var p bool
 	var ps string
